@@ -140,10 +140,36 @@ def parsePol (s : String) : Option (PanicVal → Bool) :=
 def optNat (s : String) : Option (Option Nat) :=
   if s == "-" then some none else s.toNat?.map some
 
+/-- when the initiator's context becomes done: `-` never; `k`: when the `k`-th peer element has
+been delivered; `w<n>`: while the `n`-th SASL element (from 0: `<auth/>`) is being written — the
+loop test that follows that write is number `n` -/
+def cliCancel (s : String) : Option (Option Nat) :=
+  if s.startsWith "w" then (s.drop 1).toString.toNat?.map some else optNat s
+
+/-- at which iterations the implementation was seen to test the context: `0`/`1` for iterations
+0, 1, …; the last character stands for all later iterations -/
+def parseMask (s : String) : Option (Nat → Bool) :=
+  let cs := s.toList
+  if cs.isEmpty || !cs.all (fun x => x == '0' || x == '1') then none
+  else some fun i => (cs[i]?).getD (cs.getLastD '0') == '1'
+
+/-- the moment the context becomes done, as the harness brings it about, on the model's clock:
+`F<j>` while element `j` is in flight (the first one: before the loop's first test; a later one:
+after the top test of its iteration), `S<k>` inside the `k`-th `Step` (`k ≥ 1`), `W<w>` while the
+`w`-th SASL element (from 0) is being written, `-` never -/
+def parseWhen (s : String) : Option (Option Nat) :=
+  if s == "-" then some none
+  else do
+    let n ← (s.drop 1).toString.toNat?
+    if s.startsWith "F" then some (some (if n == 0 then 0 else 2 * n + 1))
+    else if s.startsWith "S" then (if n == 0 then none else some (some (2 * n - 1)))
+    else if s.startsWith "W" then some (some (2 * n + 2))
+    else none
+
 def handleCli (budget cancel cm adv steps peer : String) (pols : String := "000") : Option String := do
   let pol ← parsePol pols
   let b ← optNat budget
-  let k ← optNat cancel
+  let k ← cliCancel cancel
   let script ← mapM? parseStep (splitList steps)
   let evs ← mapM? parseCEv (splitList peer)
   let names ← decNames cm
@@ -211,9 +237,16 @@ def handle (args : List String) : Option String :=
   | ["clip", pol, cm, adv, steps, peer] => handleCli "-" "-" cm adv steps peer pol
   | ["srvp", pol, sm, steps, perm, peer] => handleSrv false none sm steps perm peer pol
   | ["srvc", looks, k, sm, steps, perm, peer] => do
+    -- (round C lines) looks at the top of every iteration or never; done in flight (0) / in Step k
     let c ← optNat k
     if looks != "0" && looks != "1" then none
-    handleSrv false none sm steps perm peer "000" (some ⟨looks == "1", c⟩)
+    handleSrv false none sm steps perm peer "000"
+      (some ⟨fun _ => looks == "1", fun _ => false, c.map fun k => if k == 0 then 0 else 2 * k - 1⟩)
+  | ["srvg", top, mid, whn, sm, steps, perm, peer] => do
+    let t ← parseMask top
+    let m ← parseMask mid
+    let w ← parseWhen whn
+    handleSrv false none sm steps perm peer "000" (some ⟨t, m, w⟩)
   | "concs" :: sched :: accept :: creds => handleConcS sched accept creds
   | "concc" :: _sched :: users => handleConcC users
   | ["srvw", n, sm, steps, perm, peer] => do
